@@ -342,4 +342,31 @@ MORE_TIE = {
 for _k, _v in MORE_TIE.items():
     CLAIMS[_k]["text"] += _v
 
+# statements added after an independent audit of the Props modules (vacuous / trivial ones replaced)
+MORE_THM = {
+ "C03": " PROGRAM LEVEL: every call of a whole writer (writeStream / write / write_hash) that can create or fill a file in the "
+        "content area is a rename onto that path (writeStream_only_rename_publishes).",
+ "C06": " For cacache's codec: a record the reader reports is spelled out by a line `hex(sha256 json) TAB json` of the file "
+        "(no_forgery_cacache, decLine_spells).",
+ "C07": " No finished insertion is lost: in the serial history the last operation on the key is that insertion or a later "
+        "one, and lookups answer accordingly (no_finished_insert_lost).",
+ "C09": " Under every fault plan a full removal changes only the key's bucket and the found entry's content file, and only by "
+        "removing them (removeFully_changes_only, removeFully_only_removes).",
+ "C15": " PROGRAM LEVEL: every path argument of find / insert / delete for a key is its bucket path or that path's parent; "
+        "keys with equal SHA-1 touch the same index paths and nothing else of the key reaches a path (index_ops_paths, "
+        "same_sha1_same_paths).",
+ "C16": " From any healthy cache, writing the same bytes twice (any flavours, any keys) leaves the file at the address "
+        "byte-identical and the abstract store unchanged by the second write (rewrite_same_bytes).",
+ "C19": " A wrong declared size answers exactly the size error when the link phase succeeds, the link phase's own I/O error "
+        "otherwise (linkto_size_enforced, linkto_size_exact).",
+ "C20": " KEYED operations: under every fault plan read / streamed open / extraction / remove_fully answer the panic result IF "
+        "AND ONLY IF the lookup found an entry whose integrity is not a usable address (read_panic_iff, *_panic_only_if - the "
+        "excluded case is known finding F13), never for a bucket all of whose records carry >= 4 hex digits (read_no_panic, "
+        "with an instance); a listing never contains a panic item (ls_no_panic); clear, lopen, the link commit and every "
+        "operation taking an integrity argument with a usable address are panic-free (lcommit_no_panic_run: the model's "
+        "own `| _ => panic` arm is unreachable in every run and under every fault plan).",
+}
+for _k, _v in MORE_THM.items():
+    CLAIMS[_k]["text"] += _v
+
 PENDING = {}
